@@ -5,6 +5,7 @@ from reamber.osu.OsuMap import OsuMap
 from reamber.osu.lists.OsuBpmList import OsuBpmList
 from reamber.osu.lists.notes.OsuHitList import OsuHitList
 from reamber.osu.lists.notes.OsuHoldList import OsuHoldList
+from reamber.sm.SMMapMeta import SMMapChartTypes
 from reamber.sm.SMMapSet import SMMapSet
 
 
@@ -27,6 +28,10 @@ class SMToOsu(ConvertBase):
                 dict(offset="offset", column="column", length="length"),
             )
             osu.bpms = cls.cast(sm.bpms, OsuBpmList, dict(offset="offset", bpm="bpm"))
+
+            # The key count comes from the chart type, else the highest column
+            keys = SMMapChartTypes.get_keys(sm.chart_type)
+            osu.circle_size = keys if keys else sm.stack().column.max() + 1
 
             osu.background_file_name = sms.background
             osu.title = sms.title
